@@ -37,11 +37,16 @@ def jobs(tier, rng):
             out.append(dict(mols=mols, nroots=nr, method="cis", tol=1e-6, reuse=False))
     out.append(dict(mols=["h2o"], nroots=8, method="cis", tol=1e-7, reuse=False))          # nroots = nov
     out.append(dict(mols=["h2co", "ch4"], nroots=2, method="cis", tol=1e-6, reuse=False))   # heterogeneous batch (rcis_any_batch)
+    for mols in (["h2o", "h2co"], ["nh3", "h2co"]):                                           # small member: few single excitations
+        for nr in (2, 3, 6):
+            out.append(dict(mols=mols, nroots=nr, method="cis", tol=1e-6, reuse=False))
+            for m in mols:
+                out.append(dict(mols=[m], nroots=nr, method="cis", tol=1e-6, reuse=False))
     out.append(dict(mols=["h2co"], nroots=3, method="cis", tol=1e-9, reuse=False, max_iter=2))  # cap must raise
     out.append(dict(mols=["h2co"], nroots=2, method="rpa", tol=1e-6, reuse=True))           # amplitude reuse with RPA
     if tier == "quick":
-        must = out[-4:]
-        out = must + rng.sample(out[:-4], 36)
+        must = out[-4:] + [j for j in out if j["mols"] in (["h2o", "h2co"], ["h2o"], ["h2co"]) and j["nroots"] in (3, 6) and j["tol"] == 1e-6 and j["method"] == "cis" and not j["reuse"]]
+        out = must + rng.sample([j for j in out if j not in must], 30)
     for n, j in enumerate(out):
         j["id"] = "d%04d" % n
     return out
@@ -108,8 +113,8 @@ def main(tier):
                     d = max(abs(a - b) for a, b in zip(energies[k2], E[:nr2]))
                     if d > 20 * tol:
                         rep.violation("result_depends_on_number_of_roots", {"mols": mols, "mol": m, "nroots": [nr2, nr], "energies": [energies[k2], E]}, method=meth, reuse=reuse, batch=len(mols), hetero=False, capped=False)
-            if len(mols) == 2 and mols[0] == mols[1] and m == 0 and not reuse:
-                k1 = ((mols[0],), 0, meth, nr, tol, False)
+            if len(mols) == 2 and not reuse and (mols[0] != mols[1] or m == 0):
+                k1 = ((mols[m],), 0, meth, nr, tol, False)
                 if k1 in energies:
                     n_rel += 1
                     d = max(abs(a - b) for a, b in zip(energies[k1], E))
